@@ -78,12 +78,29 @@ def run(chk):
         f = float(w.pdf(x=[g1[0]])[0])
         if not close(1 / (n * f), float(g1[1]), 1e-8):
             chk.fail("gscale == 1/(n * Weibull density at gloc)", inp, 1 / (n * f), float(g1[1]))
+    # entry point on a fitted distribution (sample attached): an explicit n is honoured, the default is the sample size
+    for _ in range(20 if chk.quick else 200):
+        w0 = Weibull(round(rng.uniform(0, 5), 2), round(rng.uniform(0.5, 4), 2), rng.choice([1.5, 2.0, 3.0]))
+        data = w0.rnd(size=rng.choice([30, 80]), seed=rng.randint(0, 10 ** 6))
+        wf = Weibull.fit(data, method="pwm")
+        if not all(np.isfinite(wf.params)):
+            continue
+        nn = float(rng.choice([7, 1000, 12345]))
+        chk.count("w2g-fitted")
+        inp = dict(fitted=[float(v) for v in wf.params], n=nn, sample_size=int(data.size))
+        g_exp, g_def = weibull2gumbel(*wf.params, nn), weibull2gumbel(*wf.params, data.size)
+        g_got, g_got_def = wf.gumbel_parameters(n=nn), wf.gumbel_parameters()
+        if not (all(close(float(a), float(b), 1e-12) for a, b in zip(g_exp, g_got)) and
+                all(close(float(a), float(b), 1e-12) for a, b in zip(g_def, g_got_def))):
+            chk.fail("the three entry points give identical Gumbel parameters (fitted distribution: explicit n honoured, default n = sample size)",
+                     inp, [float(v) for v in g_exp + g_def], [float(v) for v in g_got + g_got_def])
     chk.sample(dict(loc=meta[0][0], scale=meta[0][1], shape=meta[0][2], n=meta[0][3]))
     # ---- statistics summary ------------------------------------------------------------------------------------------------
     S = 25 if chk.quick else 250
     for k in range(S):
         n = rng.choice([600, 1200, 3000])
         t, x = signal(rng, n)
+        x = x + rng.choice([0.0, -5.0, 3.0])            # also signals at a negative level
         ts = TimeSeries("s", t, x)
         kw = {}
         mode = rng.random()
@@ -92,7 +109,7 @@ def run(chk):
         elif mode < 0.5:
             kw["filterargs"] = ("lp", 0.2)
         statsdur = rng.choice([10800., 3600., 1000.])
-        quant = tuple(sorted(rng.sample([0.1, 0.37, 0.5, 0.57, 0.9, 0.99], 3)))
+        quant = tuple(sorted(rng.sample([0.0, 0.1, 0.37, 0.5, 0.57, 0.9, 0.99], 3)))
         ismin = rng.random() < 0.4
         inp = dict(signal_seed=k, n=n, kwargs={a: list(b) if isinstance(b, tuple) else b for a, b in kw.items()},
                    statsdur=statsdur, quantiles=quant, is_minima=ismin, verif_seed=chk.seed)
@@ -111,7 +128,8 @@ def run(chk):
         if not ok:
             chk.fail("summary consistent with its parts (min <= mean <= max, start/end/duration, mean step)", inp, "consistent",
                      {a: float(s[a]) for a in ("min", "mean", "max", "start", "end", "duration", "dtavg")})
-        if all(np.isfinite(pv)):
+        if not any(np.isnan(pv)):
+            # (a quantile at probability 0 is the lower end of the support: -inf for maxima, +inf for the mirrored minima)
             inc = all(b > a for a, b in zip(pv, pv[1:])) if not ismin else all(b < a for a, b in zip(pv, pv[1:]))
             if not inc:
                 chk.fail("quantile estimates monotone in the probability (increasing for maxima, mirrored for minima)", inp,
@@ -138,7 +156,7 @@ def run(chk):
                       ("wloc", loc_map(s["wloc"])), ("wscale", a * s["wscale"]), ("gloc", loc_map(s["gloc"])), ("gscale", a * s["gscale"])]
             checks += [("p_%.2f" % (100 * q), a * s["p_%.2f" % (100 * q)] + b) for q in quant]
             bad = [(nm, float(e), float(s2[nm])) for nm, e in checks
-                   if not (abs(s2[nm] - e) <= tol * (abs(e) + a * abs(s["wscale"]) + 1e-12))]
+                   if not ((np.isinf(e) and s2[nm] == e) or abs(s2[nm] - e) <= tol * (abs(e) + a * abs(s["wscale"]) + 1e-12))]
             if bad:
                 chk.fail("summary transforms under x -> a*x+b as location/scale quantities; shape, skewness, kurtosis, tz invariant",
                          dict(inp, a=a, b=b), [(x0[0], x0[1]) for x0 in bad], [(x0[0], x0[2]) for x0 in bad])
